@@ -259,7 +259,7 @@ fn any_strategy() -> CycleRecoveryStrategy {
 }
 
 //@ob id=K-MCA-4 kind=C props=C01,C03,C04,C10 fn=MemoHeader::deep_verify_memo
-//@ pre: a stale memo of each origin kind: derived-untracked, assigned, derived (one input edge through the oracle); any finality; any cycle strategy
+//@ pre: a stale memo of each origin kind: derived-untracked, assigned, derived (one input edge through the oracle); verified at an earlier revision, changed at or before that (the two differ in general); any finality; any cycle strategy
 //@ post: untracked => Changed without consulting anything; assigned => Changed without consulting anything; derived+provisional => Changed; derived+final => the input is consulted once with verified_at, Unchanged <=> it answered unchanged, and then verified_at := current
 #[cfg_attr(kani, kani::proof)]
 #[cfg_attr(kani, kani::unwind(6))]
@@ -267,6 +267,11 @@ fn any_strategy() -> CycleRecoveryStrategy {
 fn k_mca_4_deep_verify_arms() {
     let mut z = zalsa_with_oracles(1, false);
     z.runtime_mut().new_revision();
+    z.runtime_mut().new_revision();
+    // the memo was verified in revision 1 or 2 (current is 3) and last changed at or before that:
+    // the two stamps are different revisions in general, and it is `verified_at` the inputs are asked about
+    let va = if vk::any() { Revision::start() } else { Revision::start().next() };
+    let ca = if vk::any() { Revision::start() } else { va };
     let local = ZalsaLocal::new();
     let me = vk::key(0, 5);
     let guard = crate::function::sync::verif::fake_guard(&z, &local, me.ingredient_index(), me.key_index());
@@ -278,24 +283,25 @@ fn k_mca_4_deep_verify_arms() {
         1 => OriginAndExtra::assigned(vk::key(0, 2)),
         _ => OriginAndExtra::derived([QueryEdge::input(vk::key(0, 1))].into_iter(), Default::default()),
     };
-    let h = header(Revision::start(), Durability::LOW, Revision::start(), vf, origin);
+    let h = header(va, Durability::LOW, ca, vf, origin);
     let r = h.deep_verify_memo(dangling_db(), &guard, any_strategy());
     let log = the_log();
     if which < 2 || !vf {
         assert!(!r.is_unchanged());
         assert!(log.n == 0);
-        assert!(h.verified_at.load() == Revision::start());
+        assert!(h.verified_at.load() == va);
     } else {
         assert!(log.n == 1);
         let c = log.calls[0].unwrap();
-        assert!(c.kind == MCA && c.rev == 1 && c.id == vk::key(0, 1).key_index());
+        assert!(c.kind == MCA && c.rev == va.as_usize() && c.id == vk::key(0, 1).key_index());
         assert!(r.is_unchanged() == !c.changed);
         if r.is_unchanged() {
             assert!(h.verified_at.load() == z.current_revision());
         } else {
-            assert!(h.verified_at.load() == Revision::start());
+            assert!(h.verified_at.load() == va);
         }
     }
+    vcover!(va != ca, "verified_at and changed_at differ");
     vcover!();
     std::mem::forget(guard);
     std::mem::forget(h);
